@@ -84,7 +84,9 @@ def generate(seed, tier, index):
             dyn = [i for i, h in enumerate(handlers) if h.get("dynamic")]
             if dyn:
                 steps.append({"op": rng.choice(["attach", "attach", "detach"]), "hid": rng.choice(dyn)})
-        elif r < 0.95:
+        elif r < 0.93:
+            steps.append({"op": "publish_blob", "via": rng.choice(["state", "sibling"])})
+        elif r < 0.96:
             steps.append({"op": "read_attr"})
         else:
             steps.append({"op": "getprops"})
@@ -104,6 +106,7 @@ def build_driver(scen, trace, sim):
         one=properties.SwitchVector("ONE", rule="OneOfMany", default_on="O0", elements=dict(
             o0=properties.Switch("O0"), o1=properties.Switch("O1"), o2=properties.Switch("O2"))),
         rd=properties.TextVector("RD", elements=dict(r0=properties.Text("R0", default="stale"))),
+        img=properties.BLOBVector("IMG", elements=dict(b0=properties.BLOB("B0"), b1=properties.BLOB("B1"))),
     ))
     attr = {"T0": ("txt", "t0"), "T1": ("txt", "t1"), "N0": ("num", "n0"), "N1": ("num", "n1"), "A0": ("any", "a0"), "A1": ("any", "a1"),
             "A2": ("any", "a2"), "O0": ("one", "o0"), "O1": ("one", "o1"), "O2": ("one", "o2"), "R0": ("rd", "r0")}
@@ -145,6 +148,7 @@ def build_driver(scen, trace, sim):
         dct[f"h{i}"] = on(srcs if len(srcs) > 1 else srcs[0], cls_kind[h["kind"]])(fn)
     rm = scen["read_mode"]
     reads = [0]
+    installed = []  # every (payload, format) a Read handler of B0 installed, in order
     if rm != "none":
         def rrec(event, tag):
             reads[0] += 1
@@ -163,7 +167,19 @@ def build_driver(scen, trace, sim):
             def r2(self, event):
                 rrec(event, "r2")
             dct["r2"] = on(eldef("R0"), Read)(r2)
-    return type("EvDriver", (Driver,), dct), attr, dynamic
+    if rm in ("plain", "plain2"):
+        # a BLOB that has never been assigned, supplied on demand by a plain Read handler (camera frame fetched lazily)
+        def rblob(self, event):
+            from indi.device.values import BLOB as BlobValue
+            reads[0] += 1
+            trace.append({"t": sim.loop.time(), "what": "handler", "hid": "rb", "kind": "Read", "coro": False, "el": "B0", "vec": "IMG",
+                          "at_entry": event.element._value})
+            # every fetch yields a different frame (different length and format), as a real camera would
+            frame = BlobValue(b"frame%d" % reads[0] + b"." * (reads[0] % 7), ".f%d" % (reads[0] % 3))
+            installed.append((frame.binary, frame.format))
+            event.element.reset_value(frame)
+        dct["rblob"] = on(grp.vectors["img"].elements["b0"], Read)(rblob)
+    return type("EvDriver", (Driver,), dct), attr, dynamic, installed
 
 
 def execute(scen):
@@ -175,7 +191,7 @@ def execute(scen):
     invoked_any = False
     with Sim(scen["seed"], cfg, PoolConfig()) as sim:
         trace = []
-        cls, attr, dynamic = build_driver(scen, trace, sim)
+        cls, attr, dynamic, installed = build_driver(scen, trace, sim)
         stack = Stack(sim, [])
         drv = cls(router=stack.router)
         stack.drivers["EV"] = drv
@@ -183,7 +199,9 @@ def execute(scen):
         def pub_hook(origin, sender, message):
             if origin == "driver" and message.tag_name().startswith("set"):
                 trace.append({"t": sim.loop.time(), "what": "publish", "vec": message.name,
-                              "values": {c.name: c.value for c in message.children}})
+                              "values": {c.name: c.value for c in message.children},
+                              "sizes": {c.name: getattr(c, "size", None) for c in message.children},
+                              "formats": {c.name: getattr(c, "format", None) for c in message.children}})
             if origin == "driver" and message.tag_name().startswith("def"):
                 trace.append({"t": sim.loop.time(), "what": "publish_def", "vec": message.name,
                               "values": {c.name: c.value for c in message.children}})
@@ -372,6 +390,32 @@ def execute(scen):
                     want = (len(pairs) - vetoes) if vec_enabled(vec) else 0
                     if npub != want and not viol:
                         viol.append({"clause": "C14.publish", "detail": f"two-element write published {npub} updates, expected {want}", "facts": facts})
+            elif op == "publish_blob":
+                if scen["read_mode"] not in ("plain", "plain2"):
+                    continue
+                import base64
+                from indi.device.values import BLOB as BlobValue
+                if st["via"] == "state":
+                    sim.do(setattr, drv.main.img, "state_", ["Busy", "Ok", "Alert"][len(trace) % 3])
+                else:
+                    sim.do(setattr, drv.main.img.b1, "value", BlobValue(b"sib%d" % len(trace), ".s"))
+                sim.settle()
+                seg = trace[mark:]
+                pubs = [e for e in seg if e["what"] == "publish" and e["vec"] == "IMG"]
+                invoked_any = True
+                if len(pubs) != 1:
+                    viol.append({"clause": "C14.read", "detail": f"{len(pubs)} updates of IMG published by one {st['via']} change", "facts": facts})
+                else:
+                    idx = seg.index(pubs[0])
+                    before = [e for e in seg[:idx] if e.get("kind") == "Read" and e.get("el") == "B0"]
+                    got = pubs[0]["values"].get("B0")
+                    triple = (base64.b64decode(got or ""), pubs[0]["formats"].get("B0"), pubs[0]["sizes"].get("B0"))
+                    frames = [(b, f, len(b)) for b, f in installed]
+                    if not before:
+                        viol.append({"clause": "C14.read", "detail": f"IMG was published ({st['via']}) without the plain Read handler of B0 running first; published B0 payload: {got!r}", "facts": dict(facts, kind="BLOB")})
+                    elif triple not in frames:
+                        viol.append({"clause": "C14.read", "detail": f"the published B0 (payload {triple[0]!r}, format {triple[1]!r}, size {triple[2]!r}) is not a value the Read handler installed: "
+                                     f"it mixes several refreshes (installed during this publication: {frames[-len(before):]})", "facts": dict(facts, kind="BLOB", torn=True)})
             elif op in ("read_attr", "getprops"):
                 if scen["read_mode"] == "none":
                     continue
